@@ -6,16 +6,18 @@
 # Sets SUBSTRATE_VIOLATION (a VIOLATION line) and appends evidence arguments to the array `extra`.
 SUBSTRATE_VIOLATION=""
 
-_miri_batch() { # prop seed procs bases_per_proc variants
-  local prop="$1" seed="$2" procs="$3" per="$4" vars="$5"
-  local T="$SIM/target/miri" L="$SIM/target/miri-logs"; mkdir -p "$L"; rm -f "$L"/$prop-*.log
+MIRI_TEXT=""
+_miri_batch() { # prop seed procs bases_per_proc variants [target first_base]
+  local prop="$1" seed="$2" procs="$3" per="$4" vars="$5" tgt="${6:-}" first="${7:-2000000000}"
+  local T="$SIM/target/miri" L="$SIM/target/miri-logs${tgt:+-$tgt}"; mkdir -p "$L"; rm -f "$L"/$prop-*.log
+  local targ=(); [ -n "$tgt" ] && targ=(--target "$tgt")
   # leaks are not undefined behaviour: mem::forget and the leaks C04 tolerates are judged by the ledger
   export MIRIFLAGS="-Zmiri-disable-isolation -Zmiri-ignore-leaks"
   # warm-up build (also proves the harness itself is clean under Miri on a trivial batch)
-  ( cd "$SIM" && CARGO_TARGET_DIR="$T" cargo +nightly miri run --offline --no-default-features -- miri-batch --prop "$prop" --seed "$seed" --from 0 --to 0 >"$L/$prop-build.log" 2>&1 ) || { echo "harness error: Miri build failed (see $L/$prop-build.log)"; return 2; }
+  ( cd "$SIM" && CARGO_TARGET_DIR="$T" cargo +nightly miri run --offline --no-default-features "${targ[@]}" -- miri-batch --prop "$prop" --seed "$seed" --from 0 --to 0 >"$L/$prop-build.log" 2>&1 ) || { echo "harness error: Miri build failed (see $L/$prop-build.log)"; return 2; }
   local i pids=()
   for ((i=0;i<procs;i++)); do
-    ( cd "$SIM" && CARGO_TARGET_DIR="$T" cargo +nightly miri run --offline --no-default-features -- miri-batch --prop "$prop" --seed "$seed" --from $((2000000000 + i*per)) --to $((2000000000 + (i+1)*per)) --variants "$vars" >"$L/$prop-$i.log" 2>&1 ) &
+    ( cd "$SIM" && CARGO_TARGET_DIR="$T" cargo +nightly miri run --offline --no-default-features "${targ[@]}" -- miri-batch --prop "$prop" --seed "$seed" --from $((first + i*per)) --to $((first + (i+1)*per)) --variants "$vars" >"$L/$prop-$i.log" 2>&1 ) &
     pids+=($!)
   done
   local rc=0 runs=0 bad=""
@@ -29,15 +31,15 @@ _miri_batch() { # prop seed procs bases_per_proc variants
   done
   if [ $rc -ne 0 ]; then
     mkdir -p "$ROOT/replays/$prop"
-    local rp="$ROOT/replays/$prop/$seed-miri.json"
+    local rp="$ROOT/replays/$prop/$seed-miri${tgt:+-$tgt}.json"
     local plan; plan="$(grep '^MIRI-PLAN ' "$bad" | tail -1 | sed 's/^MIRI-PLAN //')"
     local why; why="$(grep -m1 -E '^error|^MIRI-VIOLATION' "$bad" | tr -d '"' | cut -c1-300)"
     [ -n "$plan" ] || { echo "harness error: Miri batch failed without a plan (see $bad)"; return 2; }
-    printf '{"substrate": "miri", "property": "%s", "rule": "miri-report", "detail": "%s", "seed": %s, "plan": %s}\n' "$prop" "$why" "$seed" "$plan" > "$rp"
+    printf '{"substrate": "miri", "target": "%s", "property": "%s", "rule": "miri-report", "detail": "%s", "seed": %s, "plan": %s}\n' "$tgt" "$prop" "$why" "$seed" "$plan" > "$rp"
     echo "  $prop [miri-report] $why"
     SUBSTRATE_VIOLATION="VIOLATION property=$prop replay=$rp"
   fi
-  extra+=(--miri-result "$runs plans interpreted by Miri in $procs processes (hooks off), $( [ $rc -eq 0 ] && echo 'no undefined behaviour and no rule violation reported' || echo 'FAILED' )")
+  MIRI_TEXT="$MIRI_TEXT${MIRI_TEXT:+; }$runs plans interpreted by Miri${tgt:+ for target $tgt} in $procs processes (hooks off), $( [ $rc -eq 0 ] && echo 'no undefined behaviour and no rule violation reported' || echo 'FAILED' )"
   return 0
 }
 
@@ -89,7 +91,18 @@ substrates() {
   fi
   if [ "$tier" = thorough ]; then
     case "$prop" in
-      C02|C03|C04|C17) _miri_batch "$prop" "$seed" 16 "${VERIF_MIRI_BASES:-6}" 6 || return $? ;;
+      C02|C03|C04|C17)
+        _miri_batch "$prop" "$seed" 16 "${VERIF_MIRI_BASES:-6}" 6 || return $?
+        # the same interpreter for a 32-bit little-endian and a 64-bit big-endian target (Miri builds their
+        # sysroots offline from rust-src): different usize width, layout, alignment and byte order
+        if [ -z "$SUBSTRATE_VIOLATION" ] && [ "${VERIF_MIRI_XBASES:-3}" != 0 ]; then
+          _miri_batch "$prop" "$seed" 16 "${VERIF_MIRI_XBASES:-3}" 4 i686-unknown-linux-gnu 2100000000 || return $?
+        fi
+        if [ -z "$SUBSTRATE_VIOLATION" ] && [ "${VERIF_MIRI_XBASES:-3}" != 0 ]; then
+          _miri_batch "$prop" "$seed" 16 "${VERIF_MIRI_XBASES:-3}" 4 s390x-unknown-linux-gnu 2200000000 || return $?
+        fi
+        extra+=(--miri-result "$MIRI_TEXT")
+        ;;
     esac
     case "$prop" in
       C03|C17) _asan_batch "$prop" "$seed" 16 "${VERIF_ASAN_BASES:-3000}" || return $? ;;
